@@ -17,7 +17,9 @@ with the ordered list of its field names, files are records.  The model follows 
 
 The filter itself is an opaque function parameter.  The specification side (`specOutputs`,
 `restrictSpec`, `filterSpec`, `stackSpec`, `specRun`) says where files go and what they hold,
-without following the control flow of the code.
+without following the control flow of the code.  `RunEq` / `FilesEq` (end of the file) say when two
+results are the same — images are functions, so sameness is pointwise — and
+`PewTheorems.C20.run_refines_spec` proves `RunEq (run a) (specRun a)` for every command line.
 -/
 namespace Pew.Cli
 
@@ -423,5 +425,52 @@ def specRun (a : Args) : Result :=
 /-- file `f` is the output `out` itself or one of its per-element text images -/
 def placedAt (f : File) (out : Path) : Prop :=
   f.path = out ∨ ∃ n, f.path = { out with stem := out.stem ++ "_" ++ n }
+
+/-! ## sameness of results
+
+Images are functions, so "the run leaves behind what the specification says" cannot be an equation
+between `Result`s; it is stated with the relations below: the same files in the same order, each at
+the same path, of the same kind, with the same element names, configuration and shape, and the same
+value at every pixel of the image (every field name). -/
+
+/-- same shape, same value at every pixel inside the shape -/
+def GridEq {α} (g g' : Grid α) : Prop :=
+  g.h = g'.h ∧ g.w = g'.w ∧ ∀ i j, i < g.h → j < g.w → g.get i j = g'.get i j
+
+/-- same element names in the same order, same configuration, same shape, and at every pixel inside
+the shape the same value of every field -/
+def LaserEq (l l' : Laser) : Prop :=
+  l.elements = l'.elements ∧ l.config = l'.config ∧ GridEq l.data l'.data
+
+def ContentEq : Content → Content → Prop
+  | .npz l, .npz l' => LaserEq l l'
+  | .csv g, .csv g' => GridEq g g'
+  | .vtk, .vtk => True
+  | _, _ => False
+
+def FileEq (f f' : File) : Prop := f.path = f'.path ∧ ContentEq f.content f'.content
+
+/-- the same files, in the same order -/
+def FilesEq : List File → List File → Prop
+  | [], [] => True
+  | f :: fs, f' :: fs' => FileEq f f' ∧ FilesEq fs fs'
+  | _, _ => False
+
+/-- same exit status, same files -/
+def RunEq (r r' : Result) : Prop := r.status = r'.status ∧ FilesEq r.files r'.files
+
+/-- what the property expects of one turn of the loop of `main` for input number `k`: the image the
+library calls give (`none` = skipped), ... -/
+def specStep (cmd : Cmd) (k : Nat) (l : Laser) : Option Laser :=
+  match cmd with
+  | .convert cfg els => restrictSpec cfg els l
+  | .filter f sel => some (filterSpec (f k) sel l)
+  | .stack _ _ => none
+
+/-- ... and its files at output `out`, in the format the suffix of `out` names -/
+def specItem (cmd : Cmd) (x : Nat × Laser × Path) : List File :=
+  match specStep cmd x.1 x.2.1 with
+  | none => []
+  | some l' => specFiles (lower x.2.2.suffix) l' x.2.2
 
 end Pew.Cli
